@@ -16,7 +16,7 @@ import EPV.Tactics
 
 set_option linter.all false
 
-open EPV EPV.Gen EPV.Spec
+open EPV EPV.Gen EPV.Spec Filter Topology
 
 namespace EPV.C01
 
@@ -77,5 +77,47 @@ example : ∃ (p : Cog6.P) (r t : ℝ), 0 < r ∧ 0 < p.tau ^ 2 - t ^ 2 ∧ p.Ga
   ⟨{ Gamma := 40, a_rad := 0, alpha_ := 0, b := 6/5, beta_ := 0, c_light := 0, geometry := 3,
      lam0_ := 0, rho0 := 9/5, tau := 5/4 }, 1, 1, by norm_num, by norm_num, by norm_num, by norm_num, by norm_num,
     by norm_num⟩
+
+/-! ### The returned fields (tree level)
+
+The traced decision tree has a single leaf: the returned fields *are* those of leaf 0. -/
+
+
+theorem cog6_tree (p : Cog6.P) (r t : ℝ) :
+    AgreeAt (Cog6.density p) (Cog6.L0.density p) r t
+      ∧ AgreeAt (Cog6.velocity p) (Cog6.L0.velocity p) r t
+      ∧ AgreeAt (Cog6.temperature p) (Cog6.L0.temperature p) r t := by
+  have e : ∀ x s, Cog6.density p x s = Cog6.L0.density p x s
+      ∧ Cog6.velocity p x s = Cog6.L0.velocity p x s
+      ∧ Cog6.temperature p x s = Cog6.L0.temperature p x s := by
+    intro x s
+    exact ⟨rfl, rfl, rfl⟩
+  exact ⟨⟨fun x => (e x t).1, Filter.Eventually.of_forall fun s => (e r s).1⟩,
+    ⟨fun x => (e x t).2.1, Filter.Eventually.of_forall fun s => (e r s).2.1⟩,
+    ⟨fun x => (e x t).2.2, Filter.Eventually.of_forall fun s => (e r s).2.2⟩⟩
+
+/-- mass balance of the returned (tree-level) fields -/
+theorem cog6_mass_tree (p : Cog6.P) (r t : ℝ) (hr : 0 < r) (hx : 0 < p.tau ^ 2 - t ^ 2) :
+    massRes (Cog6.density p) (Cog6.velocity p) (p.geometry - 1) r t = 0 := by
+  obtain ⟨hρ', hu', hT'⟩ := cog6_tree p r t
+  rw [massRes_congr hρ' hu']
+  exact cog6_mass p r t hr hx
+
+/-- momentum balance of the returned (tree-level) fields -/
+theorem cog6_momentum_tree (p : Cog6.P) (r t : ℝ) (hr : 0 < r) (hx : 0 < p.tau ^ 2 - t ^ 2)
+    (hΓ : p.Gamma ≠ 0) (hb : p.b + 2 ≠ 0) (hρ : p.rho0 ≠ 0) :
+    momResT (Cog6.density p) (Cog6.velocity p) (Cog6.temperature p) p.Gamma r t = 0 := by
+  obtain ⟨hρ', hu', hT'⟩ := cog6_tree p r t
+  rw [momResT_congr hρ' hu' hT']
+  exact cog6_momentum p r t hr hx hΓ hb hρ
+
+/-- energy balance of the returned (tree-level) fields -/
+theorem cog6_energy_tree (p : Cog6.P) (r t : ℝ) (hr : 0 < r) (hx : 0 < p.tau ^ 2 - t ^ 2)
+    (hΓ : p.Gamma ≠ 0) (hb : p.b + 2 ≠ 0) (hk : (p.geometry - 1) + 1 ≠ 0) (c a α β : ℝ) :
+    energyResT (Cog6.density p) (Cog6.velocity p) (Cog6.temperature p) p.Gamma (((p.geometry - 1) + 3) / ((p.geometry - 1) + 1))
+      (p.geometry - 1) c a 0 α β r t = 0 := by
+  obtain ⟨hρ', hu', hT'⟩ := cog6_tree p r t
+  rw [energyResT_congr hρ' hu' hT']
+  exact cog6_energy p r t hr hx hΓ hb hk c a α β
 
 end EPV.C01
